@@ -27,10 +27,131 @@ def configs(tier):
                 if (ne, nu) == (1, 1) and wspec == "missing": continue
                 out.append(dict(kind=kind, ne=ne, nu=nu, w=wspec, B=B, d=1))
         out.append(dict(kind=kind, ne=1, nu=1, w="scalar", B=B, d=1, plain=True))
+        # the system is CONSTRUCTED inside the traced function (declaration order of the user's dicts is preserved: keys in
+        # non-alphabetical order), per-key weight dicts with distinct symbolic values, per-unknown observation slices
+        out.append(dict(kind=kind, inctor=True, B=B))
     return out
 
 
+def run_inctor(cfg, R):
+    import jinns
+    from jinns.parameters import Params, ParamsDict
+    from jinns.loss import (LossODE, LossPDEStatio, LossPDENonStatio, SystemLossODE, SystemLossPDE, ODE, PDEStatio, PDENonStatio,
+                            LossWeightsODEDict, LossWeightsPDEDict)
+    from jinns.data._Batchs import ODEBatch, PDEStatioBatch, PDENonStatioBatch
+    kind, B = cfg["kind"], cfg["B"]
+    ukeys = ["prey", "fox"]; ekeys = ["zz", "aa", "mm"]            # declaration orders that are not alphabetical
+    d_in = {"ode": 1, "statio": 1, "nonstatio": 2}[kind]
+    eq_type = {"ode": "ODE", "statio": "statio_PDE", "nonstatio": "nonstatio_PDE"}[kind]
+    nets = {}
+    for k in ukeys: nets[k] = mk_pinn(d_in, 2, eq_type, deg=1, H=1)
+    params = ParamsDict(nn_params={k: nets[k].init_params() for k in ukeys}, eq_params={"kappa": jnp.array(1.3)})
+    def body(e, t, x, ud, pd):
+        ev = lambda k: (ud[k](t, pd.extract_params(k)) if kind == "ode" else ud[k](x, pd.extract_params(k)) if kind == "statio" else ud[k](t, x, pd.extract_params(k)))
+        s = (1.0 + e) * ev("prey")[0] + pd.eq_params["kappa"] * ev("fox")[1]
+        if t is not None: s = s + 2.0 * jnp.ravel(t)[0]
+        if x is not None: s = s + 3.0 * x[0]
+        return jnp.array([psi(e)(s)])
+    if kind == "ode":
+        class Eq(ODE):
+            idx: int = eqx.field(static=True, default=0)
+            def equation(self, t, ud, pd): return body(self.idx, t, None, ud, pd)
+    elif kind == "statio":
+        class Eq(PDEStatio):
+            idx: int = eqx.field(static=True, default=0)
+            def equation(self, x, ud, pd): return body(self.idx, None, x, ud, pd)
+    else:
+        class Eq(PDENonStatio):
+            idx: int = eqx.field(static=True, default=0)
+            def equation(self, t, x, ud, pd): return body(self.idx, t, x, ud, pd)
+    term_names = ("dyn_loss", "initial_condition", "observations") if kind == "ode" else ("dyn_loss", "norm_loss", "boundary_loss", "observations", "initial_condition")
+    wvals = {t: ({k: jnp.array(0.5 + 0.25 * i + 0.125 * j) for j, k in enumerate(ekeys)} if t == "dyn_loss" else
+                 {k: jnp.array(0.75 + 0.25 * i + 0.5 * j) for j, k in enumerate(ukeys)}) for i, t in enumerate(term_names)}
+    slices = {"prey": jnp.s_[0:1], "fox": jnp.s_[1:2]}
+    obs = {k: {"pinn_in": jnp.arange(1, B * d_in + 1).reshape(B, d_in) * (0.125 + 0.05 * j), "val": jnp.arange(1, B + 1).reshape(B, 1) * 0.25, "eq_params": {}} for j, k in enumerate(ukeys)}
+    if kind == "ode":
+        ic = {"prey": (jnp.array(0.25), jnp.array([0.5, 0.75])), "fox": (jnp.array(0.25), jnp.array([1.5, 1.25]))}
+        batch = ODEBatch(temporal_batch=jnp.arange(1, B + 1) * 0.2, obs_batch_dict=obs)
+    elif kind == "statio":
+        ic = None
+        batch = PDEStatioBatch(inside_batch=jnp.arange(1, B + 1).reshape(B, 1) * 0.2, border_batch=jnp.array([[[0.0, 1.0]]]), obs_batch_dict=obs)
+    else:
+        ic = {"prey": (lambda x: 0.25 * x[0]), "fox": (lambda x: 0.5 * x[0])}
+        batch = PDENonStatioBatch(times_x_inside_batch=jnp.arange(1, 2 * B + 1).reshape(B, 2) * 0.2, times_x_border_batch=jnp.array([[[0.3, 0.3], [0.0, 1.0]]]), obs_batch_dict=obs)
+    bfun = {"prey": (lambda *a: 0.5), "fox": (lambda *a: 0.25)}; bcond = {"prey": "dirichlet", "fox": "dirichlet"}
+    name = f"{kind}/constructed-in-trace/dict-weights/obs-slices"
+    key = f"{kind}:inctor"
+    R.note(functions=["jinns.loss.%s.__post_init__/set_loss_weights/evaluate (object built inside the traced function)" % ("SystemLossODE" if kind == "ode" else "SystemLossPDE")])
+
+    def f(wvals, params, batch):
+        dyn = {}
+        for i, ek in enumerate(ekeys): dyn[ek] = Eq(idx=i, Tmax=1)
+        u_dict = {}
+        for k in ukeys: u_dict[k] = nets[k]
+        w = {}
+        for t in term_names:
+            w[t] = {}
+            for k in (ekeys if t == "dyn_loss" else ukeys): w[t][k] = wvals[t][k]
+        if kind == "ode":
+            system = SystemLossODE(u_dict=u_dict, dynamic_loss_dict=dyn, initial_condition_dict={k: ic[k] for k in ukeys}, obs_slice_dict={k: slices[k] for k in ukeys},
+                                   loss_weights=LossWeightsODEDict(**w), params_dict=params)
+            singles = {k: LossODE(u=nets[k], dynamic_loss=None, initial_condition=ic[k], obs_slice=slices[k], params=params.extract_params(k)) for k in ukeys}
+        else:
+            kw = dict(initial_condition_fun_dict={k: ic[k] for k in ukeys}) if kind == "nonstatio" else {}
+            system = SystemLossPDE(u_dict=u_dict, dynamic_loss_dict=dyn, omega_boundary_fun_dict={k: bfun[k] for k in ukeys},
+                                   omega_boundary_condition_dict={k: bcond[k] for k in ukeys}, obs_slice_dict={k: slices[k] for k in ukeys},
+                                   loss_weights=LossWeightsPDEDict(**w), params_dict=params, **kw)
+            if kind == "statio":
+                singles = {k: LossPDEStatio(u=nets[k], dynamic_loss=None, omega_boundary_fun=bfun[k], omega_boundary_condition=bcond[k], obs_slice=slices[k], params=params.extract_params(k)) for k in ukeys}
+            else:
+                singles = {k: LossPDENonStatio(u=nets[k], dynamic_loss=None, omega_boundary_fun=bfun[k], omega_boundary_condition=bcond[k], initial_condition_fun=ic[k],
+                                               obs_slice=slices[k], params=params.extract_params(k)) for k in ukeys}
+        tot, res = system.evaluate(params, batch)
+        sing = {}
+        for k in ukeys:
+            bk = eqx.tree_at(lambda b: b.obs_batch_dict, batch, batch.obs_batch_dict[k])
+            sing[k] = singles[k].evaluate(params.extract_params(k), bk)[1]
+        return tot, res, sing
+
+    tr = R.trace(name, f, (wvals, params, batch), key=key + ":raises")
+    if tr is None: return
+
+    def goals(A, O):
+        W, p, b_ = A
+        tot, res, sing = O
+        G = []
+        rows_e = []
+        for e, ek in enumerate(ekeys):
+            rows = []
+            for i in range(B):
+                if kind == "ode": t_, x_ = b_.temporal_batch[i], None; z = [t_]
+                elif kind == "statio": t_, x_ = None, list(b_.inside_batch[i]); z = x_
+                else: t_, x_ = b_.times_x_inside_batch[i, 0], list(b_.times_x_inside_batch[i, 1:]); z = [t_] + x_
+                s_ = add(mul(const(1 + e, "Real"), D(p.nn_params["prey"], z, None, 0)), mul(p.eq_params["kappa"][()], D(p.nn_params["fox"], z, None, 1)))
+                if t_ is not None: s_ = add(s_, mul(const(2, "Real"), t_))
+                if x_ is not None: s_ = add(s_, mul(const(3, "Real"), x_[0]))
+                rows.append(sq(uf(f"psi{e}_0", s_)))
+            rows_e.append(mul(W["dyn_loss"][ek][()], mean(rows)))
+        G.append(("dyn_loss == sum_e w_e * mean_i r_e^2 with each equation's own weight (per-key dict, declaration order not alphabetical)", eq(res["dyn_loss"][()], tm.ssum(rows_e))))
+        for t in term_names:
+            if t == "dyn_loss": continue
+            want = tm.ssum([mul(W[t][k][()], sing[k][t][()]) for k in ukeys])
+            G.append((f"{t} == sum over unknowns of w_u * single-network {t} (own weight, own observation slice)", eq(res[t][()], want)))
+        G.append(("total == sum of the returned terms", eq(tot[()], tm.ssum([v[()] for v in res.values()]))))
+        return G
+
+    def twins(A, O):
+        W, p, b_ = A
+        tot, res, sing = O
+        t = "initial_condition" if kind != "statio" else "boundary_loss"
+        swapped = tm.ssum([mul(W[t][k2][()], sing[k][t][()]) for k, k2 in zip(ukeys, ukeys[::-1])])
+        return [(f"{t} == sum with the two unknowns' weights swapped", eq(res[t][()], swapped))]
+
+    R.check(name, tr, goals, twin_fn=twins, key_fn=lambda p_, g: key + ":" + g.split("==")[0].strip()[:30])
+
+
 def run(cfg, R):
+    if cfg.get("inctor"): return run_inctor(cfg, R)
     import jinns
     from jinns.parameters import Params, ParamsDict
     from jinns.loss import (LossODE, LossPDEStatio, LossPDENonStatio, SystemLossODE, SystemLossPDE, ODE, PDEStatio, PDENonStatio,
